@@ -1,0 +1,22 @@
+//go:build verif
+
+package hermes
+
+import "reflect"
+
+// Verification hooks for the output writer (property C05). Exported wrappers around unexported
+// fields of OutputConfig only; no behaviour of the simulator is changed.
+
+// VerifSetFormat selects the result style the way run.go does after loading a configuration
+// (`cfg.formatType = OutputFileFormat(driConfig.ResultFileFormat)`): 0 fixed width, 1 CSV.
+func (c *OutputConfig) VerifSetFormat(f int) { c.formatType = OutputFileFormat(f) }
+
+// VerifRefTypes returns, per data column, the dynamic type of the reference LoadHermesOutputConfig
+// bound (the value the type switch of WriteLine inspects).
+func (c *OutputConfig) VerifRefTypes() []reflect.Type {
+	out := make([]reflect.Type, len(c.DataColumns))
+	for i := range c.DataColumns {
+		out[i] = reflect.TypeOf(c.DataColumns[i].valueRef)
+	}
+	return out
+}
